@@ -169,6 +169,11 @@ class Env:
                     used.add(n)
                     break
             self.timing[i] = (c, dt, dur, n)
+        # timing 4: the speed and resolution of timing 1 with a strictly shorter duration (a result
+        # computed with timing 1 could be 'reused' by truncation -- only if nothing else changed)
+        c1, dt1, _d1, n1 = self.timing[1]
+        n4 = max(2, n1 - int(rng.integers(1, max(2, n1 - 2))))
+        self.timing[4] = (c1, dt1, (n4 + 0.5) * dt1, n4)
         self.caller_lists = []     # lists handed to from_dict (inside the caller's dictionary)
         self.caller_dicts = []
         self.arg_mutations = []
@@ -539,7 +544,15 @@ def gen_ops(rng, env, dist, n_roundtrips=(0, 2), tail_prob=0.5):
     for i in reversed(reps):
         ops.insert(i + 1, ops[i])
     if rng.random() < tail_prob:
-        ops += [("bake",), ("src", int(rng.integers(1, 3))), exch(recalc=True)]
+        if rng.random() < 0.35:
+            # compute for one source with timing 1, then re-source and recompute with the same speed,
+            # resolution and order but a shorter duration (timing 4)
+            a = int(rng.integers(1, 3))
+            o = int(rng.choice([1, 2, 3]))
+            ops += [("src", a), ("exch", 1, o, True), ("bake",), ("src", 3 - a), ("exch", 4, o, True)]
+            dist["tail_resource_shorter"] = dist.get("tail_resource_shorter", 0) + 1
+        else:
+            ops += [("bake",), ("src", int(rng.integers(1, 3))), exch(recalc=True)]
     for _ in range(int(rng.integers(n_roundtrips[0], n_roundtrips[1] + 1))):
         ops.insert(int(rng.integers(0, len(ops) + 1)), ("dict",) if rng.random() < 0.6 else ("file",))
     return ops
